@@ -525,6 +525,9 @@ type getStream struct {
 	out    []*spb.GetResponse
 	failAt int // fail the k-th Send (1-based), 0 = never
 	n      int
+	// a slow reader: the stallAt-th Send (1-based) takes stall before it accepts the message
+	stallAt int
+	stall   time.Duration
 }
 
 func (g *getStream) Context() context.Context     { return g.ctx }
@@ -537,6 +540,9 @@ func (g *getStream) Send(r *spb.GetResponse) error {
 	g.mu.Lock()
 	defer g.mu.Unlock()
 	g.n++
+	if g.stallAt > 0 && g.n == g.stallAt {
+		time.Sleep(g.stall)
+	}
 	if g.failAt > 0 && g.n >= g.failAt {
 		return status.Error(codes.Unavailable, "transport is closing")
 	}
@@ -579,6 +585,16 @@ func (s *Srv) Get(req *spb.GetRequest, failAt int) (resps []*spb.GetResponse, er
 	}
 	gs := &getStream{ctx: context.Background(), failAt: failAt}
 	hang = Watch("Get", func() { err = s.S.Get(req, gs) })
+	gs.mu.Lock()
+	defer gs.mu.Unlock()
+	return append([]*spb.GetResponse(nil), gs.out...), err, hang
+}
+
+// GetSlow runs the Get RPC (in-process stream) for a reader that takes stall to accept the
+// stallAt-th response (flow control towards a slow but live client).
+func (s *Srv) GetSlow(req *spb.GetRequest, stallAt int, stall time.Duration) (resps []*spb.GetResponse, err error, hang *Hang) {
+	gs := &getStream{ctx: context.Background(), stallAt: stallAt, stall: stall}
+	hang = Watch("Get (slow reader)", func() { err = s.S.Get(req, gs) })
 	gs.mu.Lock()
 	defer gs.mu.Unlock()
 	return append([]*spb.GetResponse(nil), gs.out...), err, hang
